@@ -148,6 +148,9 @@ impl Story {
             return Err(StoryError::BadArgument(e));
         }
 
+        // Refuse bad argument types before anything is changed
+        StoryState::check_arguments(args)?;
+
         // Snapshot the output stream
         let output_stream_before = self.get_state().get_output_stream().clone();
         self.get_state_mut().reset_output(None);
